@@ -286,6 +286,9 @@ fn families(thorough: bool) -> Vec<Family> {
     let all = [AK::Connect, AK::AssertZero, AK::AssertBool];
     let mut v = vec![
         f("bin-k2-c1", &[VK::Add, VK::Sub, VK::Mul, VK::Div], &all, 2, 1, 2, 1, &[0, 2], 0),
+        // two private inputs, constants 0 and 1: products / sums that the builder folds away leave
+        // private inputs that no row names (key generation must treat them deterministically)
+        f("priv2-k2-c1", &[VK::Add, VK::Sub, VK::Mul], &[AK::Connect], 2, 1, 1, 2, &[0, 1], 0),
         f("mixed-k2-c1", &[VK::Add, VK::Mul, VK::MulAdd, VK::Select, VK::Horner, VK::Bits(2)], &[AK::Connect], 2, 1, 2, 0, &[2], 1),
     ];
     // optimizer passes that iterate hash maps need several candidates at once: products first,
